@@ -295,6 +295,35 @@ fn c03_one(ctx: &mut Ctx, c: &DayCase) {
             }
         }
     }
+    // the same clause under replacing policies: an Imsaak that is not flagged extreme is reported "by
+    // conventional angle-based calculation" whatever the policy did to other prayers, so it is the
+    // Fajr at the sum angle (library default policy + one more, chosen by the date)
+    if let Some(hs) = raw(&csum) {
+        let other = [1usize, 4, 8, 10, 12, 14][c.rd.rem_euclid(6) as usize];
+        for idx in [6usize, other] {
+            let cp = c.with(|p| p.extreme_latitude_method = policy(idx, 48.5));
+            if let Ok(d) = cp.run() {
+                if let Ok(im) = d[&Prayer::Imsaak] {
+                    if !im.extreme {
+                        ctx.nontrivial(&format!("IP|{}|{}|{:.0}", idx, c.rd, lat(c)));
+                        match hs[0] {
+                            Ok(fs) => {
+                                let want = (fs.rem_euclid(24.) * 3600.).floor() as i64;
+                                if (secs(&im) - want).abs() > 1 {
+                                    ctx.fail(cp.to_json(), format!("Imsaak {} (not flagged extreme) vs Fajr at {}+{} deg = {}", hms(secs(&im)), af, aim, hms(want)), "a conventional Imsaak is Fajr at the sum angle under every policy".into());
+                                    return;
+                                }
+                            }
+                            Err(()) => {
+                                ctx.fail(cp.to_json(), format!("Imsaak {} not flagged extreme, but the Sun does not reach {}+{} deg", hms(secs(&im)), af, aim), "flagged extreme or invalid".into());
+                                return;
+                            }
+                        }
+                    }
+                }
+            }
+        }
+    }
     // monotonicity: a larger angle never gives a later Fajr/Imsaak or an earlier Isha
     let c2 = c.with(|p| {
         *p.angles.get_mut(&Prayer::Fajr).unwrap() = af + 0.7;
@@ -441,6 +470,13 @@ fn c05_one(ctx: &mut Ctx, c: &DayCase) {
         ctx.fail(c.to_json(), format!("{} entries", d.len()), "exactly seven entries".into());
         return;
     }
+    // the ordering and flag clauses: the property's quantifier (also what keeps the shrinker inside it): |lat| <= 60, a named method's
+    // configuration or custom angles in [9, 21], no policy or the library default
+    let conv = matches!(c.p.extreme_latitude_method, ExtremeLatitudeMethod::None | ExtremeLatitudeMethod::NearestGoodDayFajrIshaInvalid);
+    if !(lat(c).abs() <= 60. && named_like(c, true) && conv) {
+        ctx.branch("input-outside-quantifier");
+        return;
+    }
     if matches!(c.p.extreme_latitude_method, ExtremeLatitudeMethod::None) && d.values().any(|x| x.map(|t| t.extreme).unwrap_or(false)) {
         ctx.fail(c.to_json(), show_day(&d), "nothing flagged extreme without a policy".into());
         return;
@@ -484,9 +520,7 @@ fn c05_one(ctx: &mut Ctx, c: &DayCase) {
 pub fn c05(ctx: &mut Ctx, tier: &str, r: &mut Rng, js: &[Value], reqs: &[String], replay_only: bool) {
     ctx.shrinker = Some(c05_one);
     for c in cases_from(js, reqs) {
-        if lat(&c).abs() <= 60. && PRAYERS.iter().all(|q| c.p.minutes[q] == 0.) {
-            c05_one(ctx, &c);
-        }
+        c05_one(ctx, &c);
     }
     if replay_only {
         ctx.finish(json!({}));
@@ -722,9 +756,14 @@ pub fn c20(ctx: &mut Ctx, tier: &str, r: &mut Rng, js: &[Value], reqs: &[String]
         }
     };
     for c in cases_from(js, reqs) {
-        if lat(&c).abs() <= 45. && (gmt(&c) - lon(&c) / 15.).abs() <= 3. {
+        // inside the quantifier: a named method's configuration, conventional times (policy None or the
+        // library default; a substitute latitude or a neighbouring good day is another place or date)
+        let conv = matches!(c.p.extreme_latitude_method, ExtremeLatitudeMethod::None | ExtremeLatitudeMethod::NearestGoodDayFajrIshaInvalid);
+        if lat(&c).abs() <= 45. && (gmt(&c) - lon(&c) / 15.).abs() <= 3. && conv && named_like(&c, true) {
             let c2 = c.with(|p| p.round_seconds = RoundSeconds::None);
             pairs(ctx, &c2, 1.);
+        } else {
+            ctx.branch("handed-over-input-outside-quantifier");
         }
     }
     if replay_only {
